@@ -505,6 +505,8 @@ func canonRaw(l *leaf, cell interface{}) string {
 			return "g:null"
 		case "intlist":
 			return "il:[]"
+		case "bytes":
+			return "b:" // nil and empty byte slices are equal
 		}
 		return "NULL"
 	}
@@ -548,6 +550,10 @@ func canonRaw(l *leaf, cell interface{}) string {
 		}
 		if x, ok := asInt(); ok && (x == 0 || x == 1) {
 			return strconv.FormatBool(x == 1)
+		}
+		// a "numeric" column read without a schema arrives as float64
+		if (rv.Kind() == reflect.Float64 || rv.Kind() == reflect.Float32) && (rv.Float() == 0 || rv.Float() == 1) {
+			return strconv.FormatBool(rv.Float() == 1)
 		}
 	case "string":
 		if isStr {
@@ -612,7 +618,8 @@ func canonRaw(l *leaf, cell interface{}) string {
 			}
 		}
 	case "gob":
-		if b, ok := cell.([]byte); ok {
+		if isStr { // a blob read without a schema from a text column arrives as a string holding the same bytes
+			b := []byte(str)
 			p := reflect.New(l.typ)
 			if len(b) == 0 || gob.NewDecoder(bytes.NewReader(b)).Decode(p.Interface()) == nil {
 				return "g:" + normJSON(normEmpty(p.Elem()))
